@@ -79,6 +79,24 @@ pub type Jobs = Vec<(Arc<Scenario>, RunSpec, usize)>;
 /// `tf` transforms every scenario (e.g. adds --fsync).
 pub fn schedule_jobs(quick: bool, tf: &dyn Fn(Scenario) -> Scenario) -> Vec<(String, Jobs)> {
     let mut parts: Vec<(String, Jobs)> = vec![];
+    let mut extra_parts: Vec<(String, Jobs)> = vec![];
+    let nocfr = |spec: &mut RunSpec| {
+        spec.faults.push(crate::sup::Fault { call: "copy_file_range".into(), thread: None, nth: None, path_contains: None, action: crate::sup::Action::Errno(libc::ENOSYS) });
+    };
+    {
+        let mut j: Jobs = vec![];
+        let scens = if quick { vec![s2(2, 4), s1(2)] } else { vec![s2(2, 4), s2(3, 4), s1(2), s3("parblock", 2)] };
+        for s in scens {
+            let mut s = tf(s);
+            s.name.push_str("-nocfr");
+            let s = Arc::new(s);
+            for mut b in super::base_specs() {
+                nocfr(&mut b);
+                j.push((s.clone(), b, if quick { 1 } else { 2 }));
+            }
+        }
+        extra_parts.push((format!("copy_file_range absent (user-space fallback) d<={}", if quick { 1 } else { 2 }), j));
+    }
     let mut add = |name: &str, scens: Vec<Scenario>, d: usize| {
         let mut j = vec![];
         for s in scens {
@@ -89,6 +107,22 @@ pub fn schedule_jobs(quick: bool, tf: &dyn Fn(Scenario) -> Scenario) -> Vec<(Str
         }
         parts.push((format!("{} d<={}", name, d), j));
     };
+    // (a) -vv turns every log statement into a system call, i.e. a pre-emption point in places where the code
+    //     only communicates in memory; (b) with the kernel copy facility absent the user-space fallback runs
+    //     (positioned reads/writes on descriptors shared between block jobs)
+    let vv = |mut s: Scenario| {
+        s.args.insert(0, "-vv".into());
+        s.name.push_str("-vv");
+        s
+    };
+    if quick {
+        add("S2 parblock B=4 w2, -vv (log statements as pre-emption points)", vec![vv(s2(2, 4))], 1);
+        add("S1 parfile w2, -vv", vec![vv(s1(2))], 1);
+    } else {
+        add("S2 parblock B=4 w{2,3}, -vv (log statements as pre-emption points)", vec![vv(s2(2, 4)), vv(s2(3, 4))], 2);
+        add("S1 parfile w2, -vv", vec![vv(s1(2))], 2);
+        add("S3 -vv", vec![vv(s3("parblock", 2))], 1);
+    }
     if quick {
         add("S1 parfile w{1,2,3}", vec![s1(1), s1(2), s1(3)], 1);
         add("S2 parblock B=4 w{1,2,3}", vec![s2(1, 4), s2(2, 4), s2(3, 4)], 1);
@@ -107,5 +141,7 @@ pub fn schedule_jobs(quick: bool, tf: &dyn Fn(Scenario) -> Scenario) -> Vec<(Str
         add("S4 w{8,64} both drivers", vec![s1(8), s2(8, 4), s1(64), s2(64, 4)], 1);
         add("tiny both drivers", vec![tiny("parblock"), tiny("parfile")], 3);
     }
+    drop(add);
+    parts.extend(extra_parts);
     parts
 }
